@@ -5,6 +5,7 @@ import (
 	"context"
 	"errors"
 	"fmt"
+	"github.com/PowerDNS/lightningstream/utils/verifhook"
 	"math"
 	"os"
 	"regexp"
@@ -183,6 +184,7 @@ func (s *Syncer) readDBI(txn *lmdb.Txn, dbiName, origDBIName string, rawValues b
 			}
 		}
 
+		verifhook.Yield("readdbi.entry", dbiName)
 		// Not checking wrong order to support native integer and reverse ordering
 		if prev != nil && !isDupSort && bytes.Equal(prev, key) {
 			return nil, fmt.Errorf(
